@@ -1,5 +1,6 @@
 import PolyplyVerif.Driver.Common
 import PolyplyVerif.Generated.Tables
+import PolyplyVerif.Generated.RestraintTables
 import PolyplyVerif.Model.Restraints
 open Lean PolyplyVerif PolyplyVerif.Restraints
 
@@ -53,6 +54,20 @@ def drestrOf (j : Json) : Except String DRestr := do
 def storeToJson (s : DStore) : Json :=
   Json.arr (s.map fun (v, rs) => Json.arr #[toJson v,
     Json.arr (rs.map fun r => Json.arr #[toJson r.ref, ratToJson r.ub, ratToJson r.lb]).toArray]).toArray
+
+/-- pair sizes `[[u, v, size], …]` (symmetric) as the function `get_interaction(mol, mol, u, v)[0]` -/
+def sizeOf (j : Json) : Except String (Nat → Nat → Rat) := do
+  let tab ← (← j.getArr?).toList.mapM fun e => do
+    pure (← (← e.getArrVal? 0).getNat?, ← (← e.getArrVal? 1).getNat?, ← rat (← e.getArrVal? 2))
+  pure fun u v => match tab.find? (fun t => (t.1 == u && t.2.1 == v) || (t.1 == v && t.2.1 == u)) with
+    | some t => t.2.2
+    | none => 0
+
+def cmpName : RestraintTables.Cmp → String
+  | .lt => "lt"
+  | .le => "le"
+  | .gt => "gt"
+  | .ge => "ge"
 
 def handle (j : Json) : Except String Json := do
   let op ← (← j.getObjVal? "op").getStr?
@@ -131,6 +146,49 @@ def handle (j : Json) : Except String Json := do
     match res with
     | .ok s => pure (okJson [("store", storeToJson s)])
     | .error e => pure (errJson e)
+  | "table" =>
+    -- the comparison operators the model uses (generated from the source)
+    pure (okJson [("sphereIn", toJson (cmpName RestraintTables.sphereIn)),
+      ("sphereOut", toJson (cmpName RestraintTables.sphereOut)),
+      ("cylInRadius", toJson (cmpName RestraintTables.cylInRadius)),
+      ("cylInHeight", toJson (cmpName RestraintTables.cylInHeight)),
+      ("cylOutRadius", toJson (cmpName RestraintTables.cylOutRadius)),
+      ("cylOutHeight", toJson (cmpName RestraintTables.cylOutHeight)),
+      ("rectInside", toJson (cmpName RestraintTables.rectInside)),
+      ("msUpper", toJson (cmpName RestraintTables.msUpper)),
+      ("msLower", toJson (cmpName RestraintTables.msLower)),
+      ("dirAngle", toJson (cmpName RestraintTables.dirAngle))])
+  | "avgstep" =>
+    let size ← sizeOf (← j.getObjVal? "sizes")
+    let path ← natPairs (← j.getObjVal? "path")
+    match computeAvgStepLength size path with
+    | none => pure (errJson "empty")
+    | some (a, c) => pure (okJson [("avg", ratToJson a), ("contour", ratToJson c)])
+  | "branched" =>
+    let g ← adjOf (← j.getObjVal? "adj")
+    pure (okJson [("res", toJson (isBranched g))])
+  | "setrestraints" =>
+    let tree ← natPairs (← j.getObjVal? "tree")
+    let size ← sizeOf (← j.getObjVal? "sizes")
+    let ds ← (← (← j.getObjVal? "declared").getArr?).toList.mapM fun o => do
+      pure (⟨← (← o.getObjVal? "ref").getNat?, ← (← o.getObjVal? "target").getNat?,
+             ← rat (← o.getObjVal? "d"), ← rat (← o.getObjVal? "tol")⟩ : Declared)
+    match setRestraints tree size [] ds with
+    | .ok s => pure (okJson [("store", storeToJson s)])
+    | .error e => pure (errJson e)
+  | "eebatch" =>
+    let tree ← natPairs (← j.getObjVal? "tree")
+    let size ← sizeOf (← j.getObjVal? "sizes")
+    let start ← (← j.getObjVal? "start").getNat?
+    let stop ← (← j.getObjVal? "stop").getNat?
+    let mols ← (← (← j.getObjVal? "mols").getArr?).toList.mapM (·.getNat?)
+    let samples ← (← (← j.getObjVal? "samples").getArr?).toList.mapM rat
+    match sampleBatch tree size start stop mols samples with
+    | none => pure (errJson "crash")
+    | some (a, c, calls) =>
+      pure (okJson [("avg", ratToJson a), ("contour", ratToJson c),
+        ("calls", Json.arr (calls.map fun k => Json.arr #[toJson k.mol, toJson k.target, toJson k.ref,
+          ratToJson k.d, ratToJson k.avg]).toArray)])
   | "arange" =>
     let a ← rat (← j.getObjVal? "avg")
     let c ← rat (← j.getObjVal? "contour")
